@@ -78,6 +78,7 @@ type Task struct {
 	Harness    bool // task started by the harness (not by library code)
 	bornStep   int64
 	everParked bool
+	isAdopted  bool // a goroutine the instrumenter did not see (no exit hook)
 }
 
 // MutexState is the simulator-side state of one ssync.Mutex.
@@ -205,6 +206,7 @@ func curOrAdopt() *Task {
 	w.anon++
 	w.mu.Unlock()
 	t := w.newTask(id, "?", false)
+	t.isAdopted = true
 	t.bind()
 	return t
 }
@@ -826,11 +828,14 @@ type TaskInfo struct {
 	BlockedOnOwnerSite             string
 	OwnerAPIDone                   bool
 	OwnerDead                      bool
+	Adopted                        bool   // goroutine of net/http, gorilla, ... adopted at its first simulator operation
+	Stack                          string // its stack, for adopted tasks
 }
 
 // Tasks returns a snapshot of all live tasks. Only meaningful at a settle or
 // after the run (when no task is running).
 func (w *World) Tasks() []TaskInfo {
+	stacks := w.reapAdopted()
 	w.mu.Lock()
 	defer w.mu.Unlock()
 	var out []TaskInfo
@@ -838,7 +843,7 @@ func (w *World) Tasks() []TaskInfo {
 		if t.state == sDead {
 			continue
 		}
-		ti := TaskInfo{ID: t.ID, Site: t.Site, State: t.state.String(), ParkSite: w.siteOf(t.parkPC), API: t.API, Harness: t.Harness, BlockedSince: t.blockedAt}
+		ti := TaskInfo{Adopted: t.isAdopted, Stack: stacks[t.gid], ID: t.ID, Site: t.Site, State: t.state.String(), ParkSite: w.siteOf(t.parkPC), API: t.API, Harness: t.Harness, BlockedSince: t.blockedAt}
 		for _, h := range t.held {
 			ti.Held = append(ti.Held, w.siteOf(h.PC))
 		}
@@ -854,6 +859,52 @@ func (w *World) Tasks() []TaskInfo {
 	}
 	sort.Slice(out, func(i, j int) bool { return out[i].ID < out[j].ID })
 	return out
+}
+
+// reapAdopted: an adopted goroutine has no exit hook; whether it still exists
+// is read off a dump of all goroutines. Those that are gone become dead tasks;
+// the stacks of those that remain are returned by goroutine id.
+func (w *World) reapAdopted() map[uint64]string {
+	w.mu.Lock()
+	any := false
+	for _, t := range w.tasks {
+		if t.isAdopted && t.state != sDead {
+			any = true
+			break
+		}
+	}
+	w.mu.Unlock()
+	if !any {
+		return nil
+	}
+	buf := make([]byte, 1<<20)
+	for {
+		n := runtime.Stack(buf, true)
+		if n < len(buf) {
+			buf = buf[:n]
+			break
+		}
+		buf = make([]byte, 2*len(buf))
+	}
+	stacks := map[uint64]string{}
+	for _, blk := range strings.Split(string(buf), "\n\n") {
+		var id uint64
+		if _, err := fmt.Sscanf(blk, "goroutine %d ", &id); err == nil {
+			stacks[id] = blk
+		}
+	}
+	w.mu.Lock()
+	for _, t := range w.tasks {
+		if t.isAdopted && t.state != sDead {
+			if _, alive := stacks[t.gid]; !alive {
+				gmap.Delete(t.gid)
+				t.state = sDead
+				w.live--
+			}
+		}
+	}
+	w.mu.Unlock()
+	return stacks
 }
 
 // HeldBy returns the acquisition sites of sim mutexes held by the calling task.
